@@ -320,11 +320,18 @@ fn parsed_bodies(code: u16) -> Vec<Vec<u8>> {
 /// wire: whatever the class and however the RDATA is shaped, an accepted record reports the
 /// type its TYPE field denotes and the class its CLASS field denotes.
 pub fn check_parsed_type(code: u16, class_raw: u16, body: &[u8]) -> (Vec<Finding>, bool) {
-    let case = json!({"kind": "parsed", "code": code, "class": class_raw, "body": crate::engine::hex(body)});
-    let mut m: Vec<u8> = vec![0x18, 0x18, 0x84, 0, 0, 1, 0, 1, 0, 0, 0, 0, 1, b'q', 0, 0, 1, 0, 1, 0xc0, 12];
+    check_parsed_in(code, class_raw, body, 0x8400, 5, 1)
+}
+
+/// The same under any header flags word (opcode, response bit, ...), TTL and section: what a
+/// record's TYPE and CLASS fields denote does not depend on them.
+pub fn check_parsed_in(code: u16, class_raw: u16, body: &[u8], word: u16, ttl: u32, section: usize) -> (Vec<Finding>, bool) {
+    let case = json!({"kind": "parsed", "code": code, "class": class_raw, "body": crate::engine::hex(body), "word": word, "ttl": ttl, "section": section});
+    let mut m: Vec<u8> = vec![0x18, 0x18, (word >> 8) as u8, word as u8, 0, 1, 0, 0, 0, 0, 0, 0, 1, b'q', 0, 0, 1, 0, 1, 0xc0, 12];
+    m[5 + 2 * section] = 1;
     m.extend_from_slice(&code.to_be_bytes());
     m.extend_from_slice(&class_raw.to_be_bytes());
-    m.extend_from_slice(&[0, 0, 0, 5]);
+    m.extend_from_slice(&ttl.to_be_bytes());
     m.extend_from_slice(&(body.len() as u16).to_be_bytes());
     m.extend_from_slice(body);
     let r = guarded(|| {
@@ -336,8 +343,8 @@ pub fn check_parsed_type(code: u16, class_raw: u16, body: &[u8]) -> (Vec<Finding
         if code == 41 {
             return (bad, false);
         }
-        let Some(rec) = p.answers.first() else {
-            bad.push(("parsed-missing".into(), "accepted, but the record is not in answers".into()));
+        let Some(rec) = [&p.answers, &p.answers, &p.name_servers, &p.additional_records][section.min(3)].first() else {
+            bad.push(("parsed-missing".into(), "accepted, but the record is not in its section".into()));
             return (bad, true);
         };
         let tc = rec.rdata.type_code();
@@ -441,6 +448,34 @@ pub fn run(ctx: &Ctx) {
         });
         ctx.space("parsed records: every TYPE code 0..=65535 x 7 CLASS fields (5 classes, 2 with the cache-flush bit) x generic RDATA bodies (zeros of length 0..=10, a short name plus 0..=4 bytes, ff ff ff, a pointer, the type's canonical sample): an accepted record reports the wire TYPE and CLASS and matches exactly its own type", total.load(std::sync::atomic::Ordering::Relaxed), "complete");
         ctx.sample(json!({"kind": "parsed", "code": 1, "class": 3, "body": "0161001234"}));
+        // every CLASS field value under every opcode: what the field denotes does not depend
+        // on the header, the TTL, the RDATA being empty, or the section
+        let classes: Vec<u16> = (0..=65535u16).collect();
+        let cshards: Vec<&[u16]> = classes.chunks(256).collect();
+        let total = std::sync::atomic::AtomicU64::new(0);
+        par_shards(ctx, &cshards, |cs, t: &mut Tally| {
+            let mut n = 0u64;
+            for &class in cs.iter() {
+                for op in 0..16u16 {
+                    for qr in [0u16, 0x8000] {
+                        for (ttl, body, code, section) in [(0u32, &[][..], 1u16, 1usize), (0, &[][..], 255, 2), (0, &[10, 0, 0, 1][..], 1, 3), (5, &[][..], 16, 2), (0, &[][..], 6, 3)] {
+                            n += 1;
+                            t.evals += 1;
+                            let (f, acc) = check_parsed_in(code, class, body, qr | (op << 11) | 0x0400, ttl, section);
+                            if acc {
+                                t.nontrivial += 1;
+                            }
+                            t.outcome(if acc { "parsed" } else { "rejected" });
+                            if !f.is_empty() {
+                                ctx.violations(f);
+                            }
+                        }
+                    }
+                }
+            }
+            total.fetch_add(n, std::sync::atomic::Ordering::Relaxed);
+        });
+        ctx.space("parsed records: every 16-bit CLASS field x every opcode 0..=15 x query / response x 5 shapes (TTL 0 or 5, empty or 4-byte RDATA, types A / ANY(255) / TXT / SOA, each record section): an accepted record reports the wire CLASS and cache-flush bit", total.load(std::sync::atomic::Ordering::Relaxed), "complete");
     }
     ctx.sample(json!({"kind": "match", "code": 10, "shape": 0, "class": 1}));
     ctx.sample(json!({"kind": "match", "code": 8, "shape": 1, "class": 3}));
@@ -449,7 +484,15 @@ pub fn run(ctx: &Ctx) {
 pub fn replay(case: &Value) -> Vec<Finding> {
     match case["kind"].as_str().unwrap_or("") {
         "code" => check_code(case["code"].as_u64().unwrap_or(0) as u16),
-        "parsed" => check_parsed_type(case["code"].as_u64().unwrap_or(0) as u16, case["class"].as_u64().unwrap_or(1) as u16, &crate::engine::unhex(case["body"].as_str().unwrap_or(""))).0,
+        "parsed" => check_parsed_in(
+            case["code"].as_u64().unwrap_or(0) as u16,
+            case["class"].as_u64().unwrap_or(1) as u16,
+            &crate::engine::unhex(case["body"].as_str().unwrap_or("")),
+            case["word"].as_u64().unwrap_or(0x8400) as u16,
+            case["ttl"].as_u64().unwrap_or(5) as u32,
+            case["section"].as_u64().unwrap_or(1) as usize,
+        )
+        .0,
         "match" => check_match(
             case["code"].as_u64().unwrap_or(0) as u16,
             case["shape"].as_u64().unwrap_or(0) as u8,
